@@ -418,7 +418,11 @@ def d5_adc(ctx):
     # table
     got = {}
     for d in du.defs:
-        if d.var in ("adc_channels", "n_cycles") and d.kind == "assign":
+        if d.var in ("adc_channels", "n_cycles") and d.kind in ("assign", "unpack") and d.value is not None:
+            dv = d.value
+            if d.unpack_index is not None and isinstance(dv, ast.Tuple) and d.unpack_index < len(dv.elts):
+                dv = dv.elts[d.unpack_index]
+            d = type("D", (), {"value": dv, "node": d.node, "var": d.var})()
             ok, v = const_value(d.value)
             if not ok and isinstance(d.value, ast.Constant):
                 v = d.value.value
@@ -447,7 +451,22 @@ def d5_adc(ctx):
                   key="adc-domain")
         from sa.algebra import Evaluator
         # floor(i / (2*adc_channels)) * 2 + i mod 2
-        s = norm(d.value)
+        import copy as _copy
+
+        class _Canon(ast.NodeTransformer):
+            """x % k -> np.mod(x, k); a local holding arange(NC) -> np.arange(NC)"""
+            def visit_BinOp(self, node):
+                node = self.generic_visit(node)
+                if isinstance(node.op, ast.Mod):
+                    return ast.Call(func=ast.Attribute(value=ast.Name(id="np", ctx=ast.Load()), attr="mod", ctx=ast.Load()), args=[node.left, node.right], keywords=[])
+                return node
+
+            def visit_Name(self, node):
+                v_ = expand_name(du, node, d.stmt)
+                if v_ is not node and isinstance(v_, ast.Call) and call_name(v_) == "arange":
+                    return _copy.deepcopy(v_)
+                return node
+        s = norm(_Canon().visit(_copy.deepcopy(d.value)))
         want_s = norm(ast.parse("np.floor(np.arange(NC) / (adc_channels * 2)) * 2 + np.mod(np.arange(NC), 2)", mode="eval").body)
         alt = norm(ast.parse("np.floor(np.arange(NC) / (2 * adc_channels)) * 2 + np.mod(np.arange(NC), 2)", mode="eval").body)
         ctx.check(s in (want_s, alt), fa, d.stmt, d.stmt, "ADC = 2*floor(ch / (2*channels_per_adc)) + ch mod 2 (odd/even interleave)",
